@@ -39,7 +39,29 @@ def load_repo():
     if not f.startswith(REPO + os.sep + "ctparse" + os.sep):
         raise HarnessError("ctparse imported from {} not from {}".format(f, REPO))
     _loaded = sys.modules["ctparse.ctparse"]
+    if os.environ.get("QAV_TEXT_LOG"):
+        _install_text_log(_loaded, os.environ["QAV_TEXT_LOG"])
     return _loaded
+
+
+def _install_text_log(m, directory):
+    """tools/vocab_audit.py: record every distinct text handed to the pattern matcher (one json string per line,
+    one file per process).  Only active when QAV_TEXT_LOG names a directory; observation only."""
+    import json as _json
+
+    os.makedirs(directory, exist_ok=True)
+    orig = m._match_regex
+    seen = set()
+    tag = os.environ.get("QAV_TEXT_LOG_TAG", "x")
+
+    def logged(txt, *a, **kw):
+        if txt not in seen:
+            seen.add(txt)
+            with open(os.path.join(directory, "{}-{}.txt".format(tag, os.getpid())), "a", encoding="utf-8") as fd:
+                fd.write(_json.dumps(txt) + "\n")
+        return orig(txt, *a, **kw)
+
+    m._match_regex = logged
 
 
 def jhash(obj):
